@@ -849,6 +849,12 @@ class Ev:
         if base in ('Shl', 'Shr'):
             return T.shift('shl' if base == 'Shl' else 'shr', a, b)
         if base in ('Div', 'Rem'):
+            if b[0] == 'int' and b[1] > 0 and b[1] & (b[1] - 1) == 0 and (ty or '').startswith('u'):
+                # unsigned division / remainder by a power of two are a shift / a mask
+                k = b[1].bit_length() - 1
+                if base == 'Div':
+                    return T.shift('shr', a, T.I(k)) if k else a
+                return self.fold_bytes(T.bitop('band', a, T.I(b[1] - 1)), st)
             return ('call', base.lower(), (a, b))
         return ('opaque', 'binop %s' % op)
 
